@@ -404,7 +404,7 @@ func RunSnapLife(s *Scen, r *vk.Rand, a, b int, bin, base string, want int, full
 	// again from the start - and not remove a snapshot that was folded only in part.
 	var y *RepProc
 	for _, p := range cl.Reps {
-		if p != x && p.agent != nil && p.agent.Process != nil {
+		if want > 0 && p != x && p.agent != nil && p.agent.Process != nil {
 			y = p
 			break
 		}
@@ -445,6 +445,9 @@ func RunSnapLife(s *Scen, r *vk.Rand, a, b int, bin, base string, want int, full
 		foldKills <- 0
 	}
 	deadline := time.Now().Add(time.Duration(70+65*(want-1)) * time.Second)
+	if want == 0 {
+		deadline = time.Now() // the short form of the scenario: no wait for the cleaners
+	}
 	if y != nil {
 		deadline = deadline.Add(65 * time.Second) // y's first merge is cut short; it merges one tick later
 	}
